@@ -3,16 +3,17 @@ PROPS={}
 
 PROPS['C04']={
  'bounds_statement':'Metablock::verify executed from MIR for every threshold (u32), every authorized-key multiset and signature list within the shape bound, every hash-map iteration order; cryptography idealised (EUF-CMA oracle); canonical bytes stubbed (decided under C05/C09).',
- 'assumptions':['PublicKey::verify replaced by the ideal-signature oracle (a signature verifies only under the key that made it, over exactly the bytes it was made over)',
+ 'assumptions':['ring::signature::UnparsedPublicKey::{new,verify} replaced by the ideal-signature oracle (a signature verifies only under the key material and algorithm that made it, over exactly the bytes it was made over); PublicKey::verify itself (scheme dispatch, error mapping) runs from MIR',
                 'MetadataWrapper::to_bytes stubbed to constant bytes in this obligation (its injectivity is C05, its agreement between signer and verifier is C09)',
                 'std/dependency calls replaced by the listed models (coverage.trusted_base); models validated on every run by native replay of sampled paths',
                 'HashMap keyed by KeyId: key equality structural where PartialEq/Hash are derived; a hand-written PartialEq / Ord of a key type is executed from MIR by the map models'],
  'obligations':[
    {'name':'verify_vec','module':'harness.C04','cls':'VerifyThreshold','quick':{'nk':2,'ns':3,'iter_kind':'vec'},'thorough':{'nk':3,'ns':4,'iter_kind':'vec'}},
    {'name':'verify_mapvalues','module':'harness.C04','cls':'VerifyThreshold','quick':{'nk':2,'ns':2,'iter_kind':'values'},'thorough':{'nk':3,'ns':3,'iter_kind':'values'}},
+   {'name':'signatures_replayed_on_other_content','module':'harness.C04','cls':'ReplayAcrossCalls','quick':{},'thorough':{}},
  ]}
 
-PIPE_ASSUME=['PublicKey::verify replaced by the ideal-signature oracle; MetadataWrapper::to_bytes stubbed to constant bytes (C05/C09 decide the encoding)',
+PIPE_ASSUME=['ring::signature::UnparsedPublicKey::{new,verify} replaced by the ideal-signature oracle (PublicKey::verify itself runs from MIR); MetadataWrapper::to_bytes stubbed to constant bytes (C05/C09 decide the encoding)',
  'link directory = ghost directory behind stubs of glob::glob and load_linkfile (file enumeration, reading and JSON parsing of link files are outside the claim); everything else in load_links_for_layout runs from MIR',
  'chrono::Utc::now = symbolic instant; chrono ordering modelled as (secs,nanos) lexicographic',
  'inspection execution (runlib::in_toto_run) and std::fs::write replaced by ghost-logging stubs',
